@@ -101,10 +101,13 @@ def target_state(group, resname, position, protonated):
 
 
 def propka_rows(info_res, group, pka, chain="A"):
-    """Rows in PROPKA's own shape (see main.run_propka)."""
+    """Rows in PROPKA's own shape (see main.run_propka; PROPKA 3.5 reports
+    a blank insertion code as one space and leaves the code out of the
+    group label)."""
     label_name = group if group in ("N+", "C-") else info_res["input"]
     return [{
-        "res_num": info_res["res_seq"], "ins_code": "",
+        "res_num": info_res["res_seq"],
+        "ins_code": info_res.get("icode") or " ",
         "res_name": info_res["input"], "chain_id": chain,
         "group_label": f"{label_name:<3}{info_res['res_seq']:>4} {chain}",
         "group_type": None, "pKa": pka, "model_pKa": pka, "buried": 0.0,
@@ -156,9 +159,9 @@ def judge(ff, group, resname, position, ph, pka, names, n_missed, warnings,
     return None
 
 
-def find_residue(bm, res_seq):
+def find_residue(bm, res_seq, icode=""):
     for r in bm.residues:
-        if r.res_seq == res_seq:
+        if r.res_seq == res_seq and (r.ins_code or "").strip() == icode:
             return r
     return None
 
@@ -368,20 +371,31 @@ def run_pair_case(case):
     straddle the pH: they must end in different states (a state change of
     one residue must not leak into the other)."""
     ff, g = case["ff"], case["group"]
-    seq = ["ALA", g, "ALA", g, "ALA"]
-    atoms = build.build_peptide(seq)
+    if case.get("icode"):
+        # the two residues are neighbours numbered 2 and 2A: same name,
+        # number and chain, told apart by the insertion code only
+        seq = ["ALA", g, g, "ALA", "ALA"]
+        atoms = build.build_peptide(seq, numbers=[1, 2, 2, 3, 4],
+                                    icodes=["", "", "A", "", ""])
+        second = (2, "A")
+    else:
+        seq = ["ALA", g, "ALA", g, "ALA"]
+        atoms = build.build_peptide(seq)
+        second = (4, "")
     text = build.pdb_text(atoms)
     res = {"evals": 0, "violations": [], "events": {}, "nontrivial": []}
     seen = set()
     for pk_a, pk_b in ((4.0, 10.0), (10.0, 4.0)):
         rows = propka_rows({"res_seq": 2, "input": g}, g, pk_a) + \
-            propka_rows({"res_seq": 4, "input": g}, g, pk_b)
+            propka_rows({"res_seq": second[0], "input": g,
+                         "icode": second[1]}, g, pk_b)
         with pipeline.inject_pka(rows):
             r = pipeline.run(text, [f"--ff={ff}", "--keep-chain",
                                     "--titration-state-method=propka",
                                     "--with-ph=7"] + list(case.get("opts", [])))
         res["evals"] += 1
-        tag = f"C06/pair/{ff}/{g}" + ("[--noopt]" if case.get("opts") else "")
+        tag = f"C06/pair/{ff}/{g}" + ("[--noopt]" if case.get("opts") else "") \
+            + ("[2+2A]" if case.get("icode") else "")
         if not r.ok:
             sig = f"{tag}/run-fails:{r.exc[0]}"
             if sig not in seen:
@@ -392,17 +406,17 @@ def run_pair_case(case):
                                                         or r.exc_obj)[:160]}})
             continue
         missed = {id(a) for a in (r.missed or [])}
-        for seqno, pk in ((2, pk_a), (4, pk_b)):
-            resd = find_residue(r.bm, seqno)
+        for seqno, ic, pk in ((2, "", pk_a), second + (pk_b,)):
+            resd = find_residue(r.bm, seqno, ic)
             names = [a.name for a in resd.atoms]
             n_missed = sum(1 for a in resd.atoms if id(a) in missed)
             rq = sum(a.ffcharge for a in resd.atoms
                      if a.ffcharge is not None and id(a) not in missed)
             verdict = judge(ff, g, g, "mid", 7.0, pk, names, n_missed,
-                            r.warnings, f"{g} {seqno}", charge=rq)
-            res["nontrivial"].append(f"pair:{ff}:{g}:{pk_a}:{seqno}")
+                            r.warnings, f"{g} {seqno}{ic}", charge=rq)
+            res["nontrivial"].append(f"pair:{ff}:{g}:{pk_a}:{seqno}{ic}")
             if verdict is not None:
-                which = "first" if seqno == 2 else "second"
+                which = "first" if (seqno, ic) == (2, "") else "second"
                 sig = f"{tag}/{which}-of-two/{verdict[0]}"
                 if sig not in seen:
                     seen.add(sig)
@@ -525,6 +539,8 @@ def enumerate_cases(tier, seed):
             cases.append({"mode": "pair", "ff": ff, "group": g})
             cases.append({"mode": "pair", "ff": ff, "group": g,
                           "opts": ["--noopt"]})
+            cases.append({"mode": "pair", "ff": ff, "group": g,
+                          "icode": True})
         # acids without optimisation / with an asymmetric carboxylate
         for g in ("ASP", "GLU"):
             for pos in corpus.POSITIONS:
